@@ -510,8 +510,22 @@ pub fn embed_q6_in_q12(x: &Q6) -> Q12 {
 /// generic exponentiation once; x -> x^q is then evaluated through "Frobenius is a ring homomorphism
 /// fixing Fq".  x^(q^k) iterates this k mod 12 times (x^(q^12) = x in F_{q^12}).
 pub struct FrobTable {
-    /// images of the 12 basis monomials u^i v^j w^k in coefficient order of q12_coeffs
-    basis_img: Vec<Q12>,
+    /// img[k][i]: image under x -> x^(q^k) of the i-th basis monomial (coefficient order of q12_coeffs)
+    img: Vec<Vec<Q12>>,
+}
+fn scale_q12(x: &Q12, c: &Q1) -> Q12 {
+    q12_from_coeffs(&q12_coeffs(x).iter().map(|a| a.mul(c)).collect::<Vec<_>>())
+}
+fn apply_frob(img: &[Q12], x: &Q12) -> Q12 {
+    let cs = q12_coeffs(x);
+    let mut acc = Q12::zero();
+    for (c, im) in cs.iter().zip(img) {
+        if c.is_zero() {
+            continue;
+        }
+        acc = acc.add(&scale_q12(im, c));
+    }
+    acc
 }
 pub fn frob_table() -> &'static FrobTable {
     static T: OnceLock<FrobTable> = OnceLock::new();
@@ -519,14 +533,21 @@ pub fn frob_table() -> &'static FrobTable {
         let u = embed_q2_in_q12(&Q2::gen());
         let v = embed_q6_in_q12(&Q6::gen());
         let w = Q12::gen();
+        // the only exponentiations: u^q, v^q, w^q by generic square-and-multiply
         let imgs: Vec<Q12> = {
             let gens = [u, v, w];
-            let qq = q().clone();
-            let hs: Vec<_> = gens.iter().map(|g| { let g = g.clone(); let qq = qq.clone(); std::thread::spawn(move || g.pow(&qq)) }).collect();
+            let hs: Vec<_> = gens
+                .iter()
+                .map(|g| {
+                    let g = g.clone();
+                    std::thread::spawn(move || g.pow(q()))
+                })
+                .collect();
             hs.into_iter().map(|h| h.join().unwrap()).collect()
         };
         let (uq, vq, wq) = (&imgs[0], &imgs[1], &imgs[2]);
-        let mut basis_img = vec![];
+        // basis monomial order of q12_coeffs: index = k*6 + j*2 + i  for u^i v^j w^k
+        let mut basis1 = vec![];
         for k in 0..2 {
             for j in 0..3 {
                 for i in 0..2 {
@@ -540,32 +561,32 @@ pub fn frob_table() -> &'static FrobTable {
                     for _ in 0..k {
                         m = m.mul(wq);
                     }
-                    basis_img.push(m);
+                    basis1.push(m);
                 }
             }
         }
-        FrobTable { basis_img }
+        let mut basis0 = vec![];
+        for i in 0..12 {
+            let mut cs = vec![Q1::zero(); 12];
+            cs[i] = Q1::one();
+            basis0.push(q12_from_coeffs(&cs));
+        }
+        let mut img = vec![basis0, basis1.clone()];
+        for k in 2..12 {
+            // (x^(q^(k-1)))^q : apply the one-step map to the previous images
+            let prev: Vec<Q12> = img[k - 1].iter().map(|b| apply_frob(&basis1, b)).collect();
+            img.push(prev);
+        }
+        // x^(q^12) = x : the 12th iterate must be the identity map (self-validation of the table)
+        for i in 0..12 {
+            assert!(apply_frob(&basis1, &img[11][i]) == img[0][i], "Frobenius table: 12th iterate is not the identity");
+        }
+        FrobTable { img }
     })
 }
-pub fn frob12_once(x: &Q12) -> Q12 {
-    let t = frob_table();
-    let cs = q12_coeffs(x);
-    let mut acc = Q12::zero();
-    for (c, img) in cs.iter().zip(&t.basis_img) {
-        if c.is_zero() {
-            continue;
-        }
-        let s = embed_q2_in_q12(&Q2::new(vec![c.clone(), Q1::zero()]));
-        acc = acc.add(&img.mul(&s));
-    }
-    acc
-}
+/// x^(q^k) (x^(q^12) = x in F_{q^12})
 pub fn frob12(x: &Q12, k: usize) -> Q12 {
-    let mut y = x.clone();
-    for _ in 0..(k % 12) {
-        y = frob12_once(&y);
-    }
-    y
+    apply_frob(&frob_table().img[k % 12], x)
 }
 pub fn frob6(x: &Q6, k: usize) -> Q6 {
     let y = frob12(&embed_q6_in_q12(x), k);
